@@ -406,6 +406,12 @@ func jobC18(c *rt.Ctx) {
 		{"SubAfterBasic", SubAfterBasic, fsub, "R", "B1a", ""},
 		{"SubAfterBasic", SubAfterBasic, fsub, "R", "B1s", ""},
 		{"Add", Add, fadd, "N", "R", ""}, {"Sub", Sub, fsub, "N", "R", ""}, {"Sub", Sub, fsub, "R", "N", ""},
+		// the reducing forms share the 4p bias of the after-basic forms: exact (and carried) for one
+		// level of unreduced add/sub on either side (upstream contract; the quantifier's "one level")
+		{"SubReduce", SubReduce, fsub, "R", "B1a", "R"}, {"SubReduce", SubReduce, fsub, "R", "B1s", "R"}, {"SubReduce", SubReduce, fsub, "B1a", "R", "R"},
+		{"SubReduce", SubReduce, fsub, "B1s", "R", "R"}, {"SubReduce", SubReduce, fsub, "B1a", "B1s", "R"}, {"SubReduce", SubReduce, fsub, "B1s", "B1a", "R"},
+		{"AddReduce", AddReduce, fadd, "R", "B1a", "R"}, {"AddReduce", AddReduce, fadd, "B1s", "R", "R"}, {"AddReduce", AddReduce, fadd, "B1a", "B1s", "R"},
+		{"SubAfterBasic", SubAfterBasic, fsub, "B1a", "B1s", ""}, {"SubAfterBasic", SubAfterBasic, fsub, "B1s", "B1a", ""}, {"AddAfterBasic", AddAfterBasic, fadd, "B1a", "B1s", ""},
 	}
 	mulClasses := []string{"R", "B1a", "B1s", "B2", "N"}
 	for _, ca := range mulClasses {
